@@ -2286,7 +2286,7 @@ Example demo_run :
   rev (e_log (demo_state 1000)) =
     [LOp 0 0 RUnit; LOp 0 1 (RVal 2); LOp 0 2 RUnit; LOp 0 3 RUnit; LOp 0 4 RUnit;
      LOp 0 5 (RVal 7); LOp 0 6 (RVal 8); LOp 0 7 RUnit; LOp 1 0 (RVal 1); LDrop 0;
-     LOp 1 1 RUnit; LOp 0 8 RUnit].
+     LOp 1 1 (RVal 1); LOp 0 8 RUnit].
 Proof. vm_compute. repeat split; reflexivity. Qed.
 
 Example demo_count_inv : count_inv (demo_state 27).
